@@ -12,6 +12,10 @@ import (
 // and contra Go, it does not return the size of a map.
 func Length(value any) int {
 	value = ToLiquid(value)
+	// a range is a sequence too, although its Go representation is a struct
+	if r, ok := value.(Range); ok {
+		return r.Len()
+	}
 	ref := reflect.ValueOf(value)
 	switch ref.Kind() {
 	case reflect.Array, reflect.Slice:
